@@ -60,20 +60,10 @@ Lemma vis_class_private : forall i, is_class_private i = Some (doc_is_class_priv
 Proof. intros. apply (lift_table (fun _ => true) is_class_private doc_is_class_private); [vm_compute|]; reflexivity. Qed.
 Lemma vis_imported : forall i, is_imported i = Some (doc_is_imported i).
 Proof. intros. apply (lift_table (fun _ => true) is_imported doc_is_imported); [vm_compute|]; reflexivity. Qed.
-Lemma vis_exported_modulo_known : forall i, vin_consistent i = true -> gap_no_parent i = false ->
-  is_exported i = Some (doc_is_exported i).
-Proof.
-  intros i Hc Hg. apply (lift_table (fun i => vin_consistent i && negb (gap_no_parent i)) is_exported doc_is_exported).
-  - vm_compute. reflexivity.
-  - rewrite Hc, Hg. reflexivity.
-Qed.
-Lemma vis_wildcard_modulo_known : forall i, vin_consistent i = true -> gap_no_parent i = false ->
-  is_wildcard_exposed i = Some (doc_is_wildcard_exposed i).
-Proof.
-  intros i Hc Hg. apply (lift_table (fun i => vin_consistent i && negb (gap_no_parent i)) is_wildcard_exposed doc_is_wildcard_exposed).
-  - vm_compute. reflexivity.
-  - rewrite Hc, Hg. reflexivity.
-Qed.
+Lemma vis_exported : forall i, vin_consistent i = true -> is_exported i = Some (doc_is_exported i).
+Proof. intros i Hc. apply (lift_table vin_consistent is_exported doc_is_exported); [vm_compute; reflexivity|exact Hc]. Qed.
+Lemma vis_wildcard : forall i, vin_consistent i = true -> is_wildcard_exposed i = Some (doc_is_wildcard_exposed i).
+Proof. intros i Hc. apply (lift_table vin_consistent is_wildcard_exposed doc_is_wildcard_exposed); [vm_compute; reflexivity|exact Hc]. Qed.
 Lemma vis_public_modulo_known : forall i, vin_consistent i = true -> gap_empty_all i = false ->
   is_public i = Some (doc_is_public i).
 Proof.
@@ -82,12 +72,8 @@ Proof.
   - rewrite Hc, Hg. reflexivity.
 Qed.
 
-(* witnesses: a root module; a public-named function in a module with __all__ = [] *)
-Definition root_module_vin : vin := mkVin None false true false false false false false false None false true.
+(* witness: a public-named function in a module with __all__ = [] *)
 Definition empty_all_vin : vin := mkVin None false false false false false true true false (Some (false, false)) false true.
-Lemma vis_exported_refuted : vin_consistent root_module_vin = true /\ is_exported root_module_vin = None
-                             /\ is_wildcard_exposed root_module_vin = None.
-Proof. vm_compute. auto. Qed.
 Lemma vis_public_refuted : vin_consistent empty_all_vin = true /\ is_public empty_all_vin = Some true
                            /\ doc_is_public empty_all_vin = false.
 Proof. vm_compute. auto. Qed.
@@ -98,16 +84,13 @@ Lemma visibility_table_names : forall i,
   is_class_private i = Some (doc_is_class_private i) /\ is_imported i = Some (doc_is_imported i).
 Proof. intro i. repeat split. exact (vis_special i). exact (vis_private i). exact (vis_class_private i). exact (vis_imported i). Qed.
 
-Lemma visibility_table_modulo_known : forall i, vin_consistent i = true ->
-  (gap_no_parent i = false -> is_exported i = Some (doc_is_exported i) /\ is_wildcard_exposed i = Some (doc_is_wildcard_exposed i)) /\
-  (gap_empty_all i = false -> is_public i = Some (doc_is_public i)).
-Proof.
-  intros i Hc. split; intros Hg.
-  - split. exact (vis_exported_modulo_known i Hc Hg). exact (vis_wildcard_modulo_known i Hc Hg).
-  - exact (vis_public_modulo_known i Hc Hg).
-Qed.
+Lemma visibility_table_exposure : forall i, vin_consistent i = true ->
+  is_exported i = Some (doc_is_exported i) /\ is_wildcard_exposed i = Some (doc_is_wildcard_exposed i).
+Proof. intros i Hc. split. exact (vis_exported i Hc). exact (vis_wildcard i Hc). Qed.
 
-Lemma visibility_table_refuted :
-  (exists i, vin_consistent i = true /\ is_exported i = None /\ is_wildcard_exposed i = None) /\
-  (exists i, vin_consistent i = true /\ is_public i = Some true /\ doc_is_public i = false).
-Proof. split. exists root_module_vin. exact vis_exported_refuted. exists empty_all_vin. exact vis_public_refuted. Qed.
+Lemma visibility_table_modulo_known : forall i, vin_consistent i = true -> gap_empty_all i = false ->
+  is_public i = Some (doc_is_public i).
+Proof. exact vis_public_modulo_known. Qed.
+
+Lemma visibility_table_refuted : exists i, vin_consistent i = true /\ is_public i = Some true /\ doc_is_public i = false.
+Proof. exists empty_all_vin. exact vis_public_refuted. Qed.
